@@ -13,6 +13,7 @@ run MC_Spi MC_Spi_prefix                   # defect 3: send_repeated_pixel(_, 0)
 run MC_Small MC_Small_scroll_narrow        # defect 4: u16 sum in set_vertical_scroll_region
 run MC_Small MC_Small_init_narrow          # init check without the u32 widening
 run MC_Parallel MC_Parallel_notake         # bus cache without last.take()
+run MC_ParXfer MC_ParXfer_fast2            # is_same comparing the first two words only
 run MC_Lifecycle MC_Lifecycle_flagfirst    # sleeping flag set before the command is sent
 run MC_Lifecycle MC_Lifecycle_short        # delay shorter than 120 ms
 rm -rf /verif/work/neg.$$
